@@ -156,9 +156,9 @@ func init() {
 	walkAssume := []string{"SQLite only (no MySQL/PostgreSQL engine offline)", "desired schemas stay inside the feature set Atlas documents for SQLite; every desired schema is first created on a scratch engine by the simulator's own DDL", "a plan that fails only because of the data (shown by succeeding once all rows are removed) is expected to fail and roll back"}
 	add(&simkit.Check{
 		Property:       "C01",
-		Parts:          []simkit.Part{{Name: "schemasim-c01", Fn: schemasim.Walk("C01"), Runs: map[string]int{"quick": 3000, "thorough": 120000}}},
+		Parts:          []simkit.Part{{Name: "schemasim-c01", Fn: schemasim.Walk("C01"), NeedsCLI: true, Runs: map[string]int{"quick": 3000, "thorough": 120000}}},
 		Rule:           walkRule,
-		RequiredProbes: []string{"successful-apply", "rebuild-path", "alter-path", "converged-check/alter", "converged-check/rebuild", "failed-apply-rolled-back", "failed-apply-left-intermediate-state"},
+		RequiredProbes: []string{"step-applied-through-cli", "legacy-start", "successful-apply", "rebuild-path", "alter-path", "converged-check/alter", "converged-check/rebuild", "failed-apply-rolled-back", "failed-apply-left-intermediate-state"},
 		RequiredFaults: []string{"statement-error", "connection-abandoned"},
 		Real:           walkReal, Stub: walkStub, Assumptions: walkAssume,
 		SimTimeUnit: "reconciliation steps",
@@ -174,9 +174,9 @@ func init() {
 	})
 	add(&simkit.Check{
 		Property:       "C03",
-		Parts:          []simkit.Part{{Name: "schemasim-c03", Fn: schemasim.Walk("C03"), Runs: map[string]int{"quick": 2500, "thorough": 100000}}},
+		Parts:          []simkit.Part{{Name: "schemasim-c03", Fn: schemasim.Walk("C03"), NeedsCLI: true, Runs: map[string]int{"quick": 2500, "thorough": 100000}}},
 		Rule:           walkRule + "; oracle on every state a successful apply reached: HCL export evaluates back to the inspected schema (both directions), two inspections give identical HCL, the SQL export (plan empty -> inspected, dump mode) executes on a fresh engine and recreates the same schema and the same observer catalog",
-		RequiredProbes: []string{"successful-apply", "export-check/alter", "export-check/rebuild", "failed-apply-left-intermediate-state"},
+		RequiredProbes: []string{"step-applied-through-cli", "cli-export-check", "legacy-start", "successful-apply", "export-check/alter", "export-check/rebuild", "failed-apply-left-intermediate-state"},
 		RequiredFaults: []string{"statement-error", "connection-abandoned"},
 		Real:           walkReal, Stub: walkStub, Assumptions: walkAssume,
 		SimTimeUnit: "reconciliation steps",
